@@ -52,8 +52,11 @@ def _leaf(spec, dw, top, path):
     k = spec["k"]
     if k == "mux":
         cfg = {"aw": spec["aw"], "dw": dw, "align": spec.get("align", 0), "regs": spec["regs"]}
-        mm, regs = M.build_map(cfg)
+        late = 1 if (spec.get("late") and len(spec["regs"]) > 1) else 0
+        mm, regs = M.build_map(cfg, hold_back=late)
         mx = csr.Multiplexer(mm, shadow_overlaps=spec.get("ov"))
+        if late:
+            M.build_map(cfg, mm=mm, regs=regs, start=len(spec["regs"]) - late)
         top.submodules["_".join(path)] = mx
         return mx.bus, regs
     if k == "bridge":
@@ -170,16 +173,17 @@ def _rand_leaf(rnd, dw, depth, tier):
         aw = rnd.randint(2, 4)
         regs = []
         for i in range(rnd.randint(1, 3)):
-            r = {"w": rnd.choice([1, dw, dw + 1, 2 * dw, 2 * dw + 3, 3 * dw]), "acc": rnd.choice(["r", "w", "rw", "rw"])}
+            r = {"w": rnd.choice([0, 1, dw, dw + 1, 2 * dw, 2 * dw + 3, 3 * dw]), "acc": rnd.choice(["r", "w", "rw", "rw"])}
             m = rnd.choice(["imp", "imp", "exp", "pad"])
             if m == "exp":
                 r["addr"] = rnd.randrange(0, 1 << aw)
             elif m == "pad":
                 r["pad"] = 1
             regs.append(r)
-        return {"k": "mux", "aw": aw, "align": rnd.choice([0, 0, 1]), "regs": regs, "ov": rnd.choice([None, None, 0, 1])}
+        return {"k": "mux", "aw": aw, "align": rnd.choice([0, 0, 1]), "regs": regs, "ov": rnd.choice([None, None, 0, 1]),
+                "late": rnd.random() < 0.25}
     if k == "bridge":
-        return {"k": "bridge", "aw": rnd.randint(2, 4), "widths": [rnd.choice([1, dw, dw + 4, 3 * dw]) for _ in range(rnd.randint(1, 3))]}
+        return {"k": "bridge", "aw": rnd.randint(2, 4), "widths": [rnd.choice([0, 1, dw, dw + 4, 3 * dw]) for _ in range(rnd.randint(1, 3))]}
     if k == "evmon":
         n = rnd.choice([1, 3, dw, dw + 1, 2 * dw + 1, 2 * dw + 4])
         return {"k": "evmon", "trg": [rnd.choice(["level", "rise", "fall"]) for _ in range(n)], "align": rnd.choice([0, 0, 1, 2])}
